@@ -51,6 +51,8 @@ PROFILES = {
     "cast1": prof("MC_Fn", "MovesCast", 1, srcs=[11], allow_undef=True),
     "gsub4": prof("MC_Focus", "MovesGS", 4, srcs=[1, 6]),
     "mixsim": prof("MC_Focus", "MovesMix", 7, srcs=[1, 6, 7], simulate=True, sim_depth=16, num=20000, invariants=[], properties=[], timeout=900),
+    "subq4": prof("MC_Focus", "MovesSubq", 4, srcs=[1]),
+    "subq5": prof("MC_Focus", "MovesSubq", 5, srcs=[1]),
     "tall2": prof("MC_Focus", "MovesTall", 2, srcs=[12]),
     "ty2": prof("MC_Focus", "MovesTy", 2, srcs=[1, 8, 4]),
     "err2": prof("MC_Focus", "MovesErr", 2, srcs=[1, 4]),
@@ -62,7 +64,7 @@ PROFILES = {
 GEN_CLAUSES_SPEC = {"names", "rows", "order", "accept", "export-error", "group"}
 
 CROSS = {"cross-names", "cross-rows", "cross-order"}
-SUBQ = {"alias-unblocks", "polars-subquery", "never-needs"}
+SUBQ = {"alias-unblocks", "polars-subquery", "never-needs", "subq-shared"}
 
 CHECKS = {
     # development aid (not registered in MANIFEST.json): the simulation profile alone
@@ -90,7 +92,7 @@ CHECKS = {
     "C08": dict(
         level="model_checking",
         clauses=SUBQ | {"rows", "order", "names", "export-error", "accept", "flat-correct"}, backends={"sqlite"},
-        phases=dict(quick=[dict(kind="flat", depth=5), dict(kind="flat", depth=3, paths=True), dict(profile="gsub4"), dict(profile="wins3"), dict(profile="agg3"), dict(profile="joins3"), dict(profile="union2")],
+        phases=dict(quick=[dict(kind="flat", depth=5), dict(kind="flat", depth=3, paths=True), dict(profile="gsub4"), dict(profile="subq4"), dict(profile="wins3"), dict(profile="agg3"), dict(profile="joins3"), dict(profile="union2")],
                     thorough=[dict(kind="flat", depth=6, srcs=[1, 6, 7], timeout=1800), dict(kind="flat", depth=4, paths=True), dict(profile="wins4"), dict(profile="agg3"), dict(profile="win3"),
                               dict(profile="joins4"), dict(profile="union3")]),
     ),
@@ -191,8 +193,9 @@ CHECKS = {
     "C10": dict(
         level="model_checking",
         clauses={"immut-fp", "immut-data", "immut-query", "immut-source", "rows", "order", "names", "accept", "group"},
-        phases=dict(quick=[dict(profile="imm3", opts=dict(immut=True)), dict(profile="core2", opts=dict(immut=True))],
-                    thorough=[dict(profile="imm4", opts=dict(immut=True)), dict(profile="agg3", opts=dict(immut=True)),
+        phases=dict(quick=[dict(profile="imm3", opts=dict(immut=True)), dict(profile="core2", opts=dict(immut=True)),
+                           dict(profile="subq4", opts=dict(immut=True))],
+                    thorough=[dict(profile="imm4", opts=dict(immut=True)), dict(profile="agg3", opts=dict(immut=True)), dict(profile="subq5", opts=dict(immut=True)),
                               dict(profile="wins3", opts=dict(immut=True)), dict(profile="join2", opts=dict(immut=True))]),
     ),
     "C11": dict(
